@@ -207,8 +207,15 @@ Proof.
   - rewrite Hc. cbn [negb]. destruct IH as [I1 I2]. rewrite I1, I2. split; reflexivity.
 Qed.
 
-Theorem message_roundtrip o addr vs text w :
-  compress o = false -> good_addr addr -> Forall good_val vs ->
+Section MsgGen.
+Variable o : popts.
+Variable P : av -> Prop.
+Hypothesis Htok : forall v cols t w c,
+  P v -> print_scalar o v cols = Some (t, w, c) -> tokof dec2f dec2d v t /\ w = len t.
+Hypothesis HPs : forall v, P v -> scalar v.
+
+Theorem message_roundtrip_gen addr vs text w :
+  compress o = false -> good_addr addr -> Forall P vs ->
   print_message o addr vs 0 = Some (text, w) ->
   w = len text /\
   count_printed_arg_vals_of_msg dec2f dec2d text = Ok (true, Z.of_nat (length vs)) /\
@@ -232,7 +239,7 @@ Proof.
     unfold count_printed_arg_vals_of_msg, scan_message.
     rewrite !Hnw, !Hsk, !Hhd. cbn [Z.eqb Pos.eqb negb]. rewrite Hd, Ht.
     split; reflexivity.
-  - apply (print_loop_lang dec2f dec2d o good_val (scalar_tok dec2f dec2d o) (good_val_scalar dec2f dec2d) Hoff) in El;
+  - apply (print_loop_lang dec2f dec2d o P Htok HPs Hoff) in El;
       [|assumption|lia|discriminate].
     destruct El as (sfx & -> & -> & Hl).
     destruct (lang_from_lang dec2f dec2d _ _ _ Hl ltac:(discriminate)) as (sepz & T & -> & HL & Hsep).
@@ -253,6 +260,17 @@ Proof.
       rewrite (count_loop_lang dec2f dec2d _ _ HL); [reflexivity|].
       rewrite app_length. cbn [length]. lia.
     + now rewrite (scan_lang dec2f dec2d _ _ HL).
+Qed.
+End MsgGen.
+
+Theorem message_roundtrip o addr vs text w :
+  compress o = false -> good_addr addr -> Forall good_val vs ->
+  print_message o addr vs 0 = Some (text, w) ->
+  w = len text /\
+  count_printed_arg_vals_of_msg dec2f dec2d text = Ok (true, Z.of_nat (length vs)) /\
+  scan_message dec2f dec2d text (Z.of_nat (length vs)) = Ok (addr, vs, []).
+Proof.
+  exact (message_roundtrip_gen o good_val (scalar_tok dec2f dec2d o) (good_val_scalar dec2f dec2d) addr vs text w).
 Qed.
 End Msg.
 
